@@ -131,9 +131,13 @@ class Gen:
         self.rational = rational
         self.facts, self.traced_pow = facts, traced_pow
         self.buf_filled = {}
+        self.trailing = False   # append work after the outputs (set by gen_prog / kernel_programs)
+        self.buf_len = {}
         self.tags = set()       # properties of the generated program that the instruction list does not show (e.g. a base matrix that needs pivoting)
 
     def emit(self, ins, kind=None):
+        if ins[0] == 'zeros':
+            self.buf_len[len(self.kind)] = ins[1]
         self.instrs.append(ins)
         if creates_reg(ins):
             self.kind.append(kind)
@@ -456,6 +460,28 @@ class Gen:
         w = self.emit(['bin', 'mul', ['r', s0], ['a', self.rng.sample([0.5, -1.0, 2.0, 1.5, -0.25], n_out)]], ('v', n_out))
         return self.emit(['sum', w], 's')
 
+    def nd_block(self):
+        """rank-3 intermediate values: an (n,1,d) operand combined with a (k,d) / (n,k,1) / (1,k,d) constant or traced operand - broadcasting
+        along an INTERIOR axis (pairwise differences x_i - c_j), every operator, either side; reductions with non-uniform weights"""
+        n, k, d = self.rng.choice([(2, 2, 2), (2, 3, 2), (3, 2, 2), (2, 2, 3)])
+        M = self.emit(['zeros2', n, d], 'bufm')
+        for i in range(n):
+            for j in range(d):
+                t = self.emit(['un', self.rng.choice(['sin', 'cos']), self.pick_scalar()], 's')
+                self.emit(['set2', M, i, j, ['r', self.emit(['bin', 'add', ['r', t], ['c', 1.5 + 0.5 * i + 0.25 * j]], 's')]])
+        R = self.emit(['reshape', M, [n, 1, d]], 'view')
+        op = self.rng.choice(['sub', 'add', 'mul', 'div', 'sub'])
+        cshape = self.rng.choice([(k, d), (1, k, d), (n, k, 1)])
+        C = (numpy.arange(int(numpy.prod(cshape)), dtype=float).reshape(cshape) * 0.25 + 0.5).tolist()
+        self.tags.add('nd:%s:%s' % (op, 'x'.join(map(str, cshape))))
+        if self.rng.random() < 0.7 or op == 'div':
+            T = self.emit(['bin', op, ['r', R], ['a', C]], 'view')
+        else:
+            T = self.emit(['bin', op, ['a', C], ['r', R]], 'view')
+        W = (numpy.arange(n * k * d, dtype=float).reshape((n, k, d)) % 5 * 0.5 - 0.75).tolist()
+        Q = self.emit(['bin', 'mul', ['r', self.emit(['bin', 'mul', ['r', T], ['r', T]], 'view')], ['a', W]], 'view')
+        return self.emit(['sum', Q], 's')
+
     def fact_block(self):
         """symmetric positive definite 2x2 or 3x3 matrix built from scalars, then eigh / qr / cholesky; uniquely defined outputs only"""
         n = self.rng.choice([2, 2, 3])
@@ -551,7 +577,22 @@ class Gen:
         for _ in range(nout - 1):
             a = self.rng.choice(self.scalars())
             ret.append(self.emit(['bin', 'add', ['r', a], ['r', self.rng.choice(self.scalars())]], 's'))
+        if self.trailing:
+            self.trailing_work()
         return dict(N=self.N, instrs=self.instrs, ret=ret)
+
+    def trailing_work(self):
+        """the program goes on AFTER its outputs were formed (time stepping beyond the step that is differentiated, logging, clean-up):
+        cells of buffers that earlier operations read are overwritten again, further values are computed; none of it reaches an output"""
+        self.tags.add('trailing')
+        bufs = [r for r, k in enumerate(self.kind) if k == 'bufv']
+        for b in bufs[:3]:
+            n = self.buf_len.get(b, 0)
+            for k in range(n):
+                self.emit(['set', b, k, ['r', self.pick_scalar()]])
+        for _ in range(2):
+            t = self.emit(['un', self.rng.choice(['sin', 'cos', 'square']), self.pick_scalar()], 's')
+            self.emit(['bin', 'mul', ['r', t], ['r', self.pick_scalar()]], 's')
 
 
 def gen_prog(rng, ap, N=None, length=None, nout=1, scalar_only=False, buffers=True, linalg=True, tries=50, rational=False, facts=True, traced_pow=False, focus=None):
@@ -559,6 +600,7 @@ def gen_prog(rng, ap, N=None, length=None, nout=1, scalar_only=False, buffers=Tr
     for _ in range(tries):
         n = N or rng.randint(1, 4)
         g = Gen(rng, n, scalar_only=scalar_only or rational, buffers=buffers, linalg=linalg, rational=rational, facts=facts, traced_pow=traced_pow, focus=focus)
+        g.trailing = buffers and rng.random() < 0.25
         prog = g.build(length or rng.randint(4, 22), nout=nout)
         ok = True
         for _t in range(3):
@@ -674,7 +716,7 @@ def kernel_programs(rng, ap, reps=2):
             fs.add(ins[0] + ''.join(':%s' % (v,) for v in ins[1:] if isinstance(v, str) or (ins[0] in ('sumaxis', 'symvec', 'prod', 'T') and isinstance(v, int))))
         return fs
 
-    for name, k in [('buffer_block', 8), ('vector_block', 8), ('matrix_block', 14), ('rect_block', 10), ('fact_block', 8), ('bcast_block', 6), ('edge_block', 6)]:
+    for name, k in [('buffer_block', 8), ('vector_block', 8), ('matrix_block', 14), ('rect_block', 10), ('fact_block', 8), ('bcast_block', 6), ('edge_block', 6), ('nd_block', 8)]:
         # every branch of a block, not whatever a handful of draws happens to pick: keep drawing blocks (cheap, nothing is evaluated
         # here) and keep each one that shows an instruction/parameter combination not seen so far, besides the first k
         want = k * reps // 2 if reps > 1 else k
@@ -689,4 +731,14 @@ def kernel_programs(rng, ap, reps=2):
                 seen |= fs
             else:
                 dry += 1
+    # the same blocks once more with work going on after the outputs were formed
+    for name in ('buffer_block', 'vector_block', 'bcast_block'):
+        for _ in range(4 if reps == 1 else 4 * reps // 2):
+            g, a = start(N=rng.randint(2, 4))
+            r = getattr(g, name)()
+            sc = g.scalars()
+            acc = g.emit(['bin', 'mul', ['r', r], ['r', sc[0]]], 's')
+            acc = g.emit(['bin', 'add', ['r', acc], ['r', r]], 's')
+            g.trailing_work()
+            out.append((name + ':trailing', dict(N=g.N, instrs=g.instrs, ret=[acc])))
     return out
